@@ -146,6 +146,21 @@ CHECKS['C14'] = {
     'technique': 'Hypothesis differential testing of the placement function vs reference model on simulated clusters',
 }
 
+CHECKS['C18'] = {
+    'engine': 'E3-solo',
+    'category': 'exploration',
+    'text': ('Differential test of the real rules Parser (lxml + XSD and ElementTree paths) against a reference resolver '
+             'working on generated abstract documents (aliases, model chains with cycles, names and overlapping patterns, '
+             'in- and out-of-domain values), and metamorphic / domain-table test of SupvisorsOptions (an out-of-domain '
+             'value gives exactly the options obtained without the key; ValueError iff synchro_options ends up empty; '
+             'CORE / STRICT dropped; TIMEOUT forces CONTINUE; purity across instances).'),
+    'design_ref': 'DESIGN.md 5/C18',
+    'note': ('Trusted: the reference resolver (about 120 lines) and the option domain table transcribed from '
+             "docs/configuration.rst, Hypothesis. Not generated: '#' / '@' sign resolution, pathological regular "
+             'expressions, multicast / file options.'),
+    'technique': 'Hypothesis differential testing vs reference resolver + metamorphic option fallback relation',
+}
+
 HOOK_COMMITS = []
 
 ENGINES = [
@@ -155,10 +170,10 @@ ENGINES = [
      'serves_properties': ['C01', 'C02', 'C07', 'C08', 'C12', 'C14', 'C16']},
     {'name': 'E3-solo', 'path': 'clustersim/solo.py', 'kind_free_text':
         'one real instance with puppet peers / pure component harnesses driven by Hypothesis',
-     'serves_properties': ['C11', 'C15', 'C20']},
+     'serves_properties': ['C11', 'C15', 'C18', 'C20']},
 ]
 
 _PENDING = 'check not built yet in this round (the technique applies; see DESIGN.md section 5)'
 NOT_APPLICABLE = {pid: _PENDING for pid in
                   ['C03', 'C04', 'C05', 'C06', 'C09', 'C10', 'C13',
-                   'C17', 'C18', 'C19']}
+                   'C17', 'C19']}
